@@ -43,7 +43,7 @@ CLAIMED = {
     "C10": ("4 C10", "typestate of the depth-first traversal's ready set and guard of its yield; sibling cross-check of the "
             "recycled-id protocol (descending removal, positions before removal, append) over every pop/append loop; "
             "CFG pairing of single-assignment id counters with their uses; linear-form check of get_ssa_path's id"
-            "; def-use provenance of converted paths (caller-supplied paths need the input count); positional del treated as removal; sample evaluation of the inferred input count against its definition; ad-hoc per-node cache keys (shared with C02); truth-value uses of path parameters; per-call dispatch of explicit paths (shared with C13)"),
+            "; def-use provenance of converted paths (caller-supplied paths need the input count); positional del treated as removal; sample evaluation of the inferred input count against its definition; ad-hoc per-node cache keys (shared with C02); truth-value uses of path parameters; per-call dispatch of explicit paths (shared with C13); evaluation of the converters' pure source over an exhaustive bounded family of paths and index orders (DESIGN E9)"),
     "C11": ("4 C11", "abstract interpretation of the batched-matmul planner's layout expressions into sequences of "
             "index-group symbols (groups identified by their filling conditions) checked against the matmul contract; "
             "direction analysis of every transposition tuple; stage/position agreement of the single-operand planner "
@@ -53,7 +53,7 @@ CLAIMED = {
             "the fresh-symbol choice, partial evaluation of the ellipsis slice and of the interleaved index expressions, "
             "sibling agreement of the implicit-output implementations, guard/direction of the single-operand fast paths, "
             "def-use check that every label-carrying argument passes the one renaming map"
-            "; form-independent partial evaluation of the interleaved form (loop or strided slices); routine used for implicit outputs of the label interface; CFG must-pass-through of a blank-stripping re-binding between the caller's subscripts string and its splitter; completeness of the ellipsis symbol list before operands are replaced; conventions of the pairwise backend (shared with C01/C11)"),
+            "; form-independent partial evaluation of the interleaved form (loop or strided slices); routine used for implicit outputs of the label interface; CFG must-pass-through of a blank-stripping re-binding between the caller's subscripts string and its splitter; completeness of the ellipsis symbol list before operands are replaced; conventions of the pairwise backend (shared with C01/C11); evaluation of the ellipsis rewriting's pure source over a bounded family of equations against numpy's rule (DESIGN E9)"),
     "C13": ("4 C13", "cache-key completeness/injectivity by def-use dependence, sibling TypeError fallback, purity and "
             "result-immutability of lru_cached parsers, array-taint of cached callables"
             "; computed layering of memo functions below cache tables and joint invalidation; memo-key carrier analysis of the per-tree contractor memo (shared with C02)"),
